@@ -279,8 +279,17 @@ static void run() {
   }
 }
 
+static void process_init() {
+  // random_data opens the device through a function-local static on its first call ever; do that
+  // before any run so that every run starts from the same process state
+  vfs::reset();
+  std::thread t([]() { (void)phosg::random_object<uint8_t>(); });
+  t.join();
+}
+
 int main(int argc, char** argv) {
   Engine e;
+  e.process_init = process_init;
   e.property = "C20";
   e.name = "sim-rand";
   e.run = run;
